@@ -9,6 +9,7 @@ import Tahoe.Immutable.IntegrityBytes
         → `good` | `corrupt` | `incompatible` | `raised`                  (`Checker._download_and_verify`)
   `postrepair <k> <n> <pre-repair sharemap> <upload sharemap>`  (sharemap = `shnum:srv.srv;…` | `-`)
         → `healthy=<0|1> recoverable=<0|1> good=<n>`                      (`_gather_repair_results`)
+  `repairparams <k> <n> <size> <validated-ueb-hex|->` → `<k> <N> <segment size>` | `none`   (`Repairer._got_segsize`)
   `repair <present shnums .-list> <requested .-list>` → `already=<…> written=<…>` (abstract storage spec) -/
 open Tahoe.Drv Tahoe.Integrity Tahoe.IntegrityBytes Tahoe.Base.Merkle
 
@@ -73,6 +74,21 @@ def handle : List String → String
       let urPairs : List (Nat × Nat) := ur.flatMap (fun (sh, ss) => ss.map (fun srv => (sh, srv)))
       let r := gatherRepairResults k n preRs urPairs
       s!"healthy={b01 r.healthy} recoverable={b01 r.recoverable} good={r.countGood}"
+    | _, _, _, _ => "bad-op"
+  | ["repairparams", k, n, size, ux] =>
+    -- the node state after the UEB `ux` was validated (`-` = nothing validated yet)
+    match k.toNat?, n.toNat?, size.toNat?, bytesOfHex ux with
+    | some k, some n, size?, some ub =>
+      let cap : Cap B := { uebHash := [], k := k, n := n, size := size?.getD 0 }
+      let nd0 := Node.init B cap
+      let nd : Node B := match parseUEB ub with
+        | none => nd0
+        | some u => match calcSizes cap.size cap.k u.segmentSize with
+          | none => nd0
+          | some sz => { nd0 with known := some (u, sz) }
+      match repairParams cap nd with
+      | none => "none"
+      | some p => s!"{p.k} {p.n} {p.segSize}"
     | _, _, _, _ => "bad-op"
   | ["repair", present, req] =>
     match dotList present, dotList req with
